@@ -1,5 +1,6 @@
 import PicoVerif.Model.Writers
 import PicoVerif.Spec.LuaLex
+import PicoVerif.Lemmas.C01
 /-! C01 — luamin keeps the program: same tokens modulo renaming, nothing glued.
 
 The end-to-end statement is `minify_relex`. It is stated for every token list the lexer can produce in which no
@@ -37,26 +38,27 @@ theorem needsSpace_covers (a b : Bytes) (ha : a ≠ []) (hb : b ≠ []) :
     (a.getLast? = some 91 ∧ b.head? = some 91 → needsSpace a b = true) ∧
     (a.getLast? = some 46 ∧ b.head? = some 46 → needsSpace a b = true) ∧
     ((a.head?.map isDigit).getD false = true ∧ b.head? = some 46 → needsSpace a b = true) := by
-  sorry
+  have h := C01L.needsSpace_covers a b
+  exact ⟨h.1, h.2.1, h.2.2.1, h.2.2.2 ha⟩
 
 /-- **C01.joined_separated**: in the joined output a space stands between two chunks whenever `needsSpace` says so,
 and nothing else is inserted: the output is the chunks with those spaces. -/
 theorem joined_separated (prev : Bytes) (cs : List Bytes) :
     joinChunks prev cs = (cs.zip (prev :: cs)).flatMap (fun (c, p) => (if needsSpace p c then [32] else []) ++ c) := by
-  sorry
+  exact C01L.joined_separated prev cs
 
 /-- **C01.words_separated**: luamin never writes two word-like tokens (names, keywords, numbers) back to back:
 whenever a name/keyword/number follows one without a newline token in between, a space chunk is emitted first. -/
 theorem words_separated (cfg : NameCfg) (st : MinSt) (t : Tok) (h : st.lastNKN = true)
     (hk : t.kind = .name ∨ t.kind = .keyword ∨ t.kind = .number) (hs : st.seenCode = true) :
     ∃ st' c, minStep cfg st t = (st', [[32], c]) ∧ st'.lastNKN = true := by
-  sorry
+  exact C01L.words_separated cfg st t h hk hs
 
 /-- **C01.newline_kept**: a newline token after code always yields a line feed in the output unless one was just
 written (so every line-scoped shorthand still ends where it ended), and resets the word flag. -/
 theorem newline_kept (cfg : NameCfg) (st : MinSt) (t : Tok) (hk : t.kind = .newline) (hs : st.seenCode = true) :
     minStep cfg st t = ({ st with lastNKN := false, lastNL := true }, if st.lastNL then [] else [[10]]) := by
-  sorry
+  exact C01L.newline_kept cfg st t hk hs
 
 /-- what one significant token must read back as: names and labels renamed by `f`, everything else identical
 (numbers by spelling, strings by decoded value and quote kind) -/
@@ -74,14 +76,47 @@ theorem minify_relex (cfg : NameCfg) (src : Bytes) (toks : List Tok) (hl : lex [
     ∃ out f, lex [minify cfg toks] = .ok out ∧ (sigToks out).length = (sigToks toks).length ∧
       ∀ i, i < (sigToks toks).length →
         ∃ a b, (sigToks out)[i]? = some a ∧ (sigToks toks)[i]? = some b ∧ sameTok a (renameTok f b) = true := by
-  sorry
+  have hff : C01L.FusFree (C01L.sigOf toks) := by
+    apply C01L.fusFree_of_index
+    intro i a b ha hb hsa hsb
+    have hlt : i + 1 < (sigToks toks).length := by
+      have := (List.getElem?_eq_some_iff.mp hb).1; exact this
+    have hca : a.code = a.data := C01L.code_plain a (by rcases hsa with h | h <;> simp [h])
+    have hcb : b.code = b.data := C01L.code_plain b (by rcases hsb with h | h <;> simp [h])
+    have := hn i hlt a b ha hb hsa hsb
+    rw [hca, hcb] at this
+    exact this
+  obtain ⟨out, nf, ho, hs⟩ := C01L.minify_relex_L cfg src toks hl hff
+  obtain ⟨hlen, hidx⟩ := C01L.map_eq_index _ _ _ _ hs
+  refine ⟨out, C01L.fOf cfg nf, ho, hlen, fun i hi => ?_⟩
+  obtain ⟨a, b, ha, hb, hab⟩ := hidx i hi
+  refine ⟨a, b, ha, hb, ?_⟩
+  simp only [C01L.core, C01L.fcore, Prod.mk.injEq] at hab
+  obtain ⟨h1, h2, h3, h4⟩ := hab
+  unfold sameTok renameTok
+  by_cases hk1 : b.kind = .name
+  · simp [hk1, h1, h2, h3, h4]
+  · by_cases hk2 : b.kind = .label
+    · simp [hk2, h1, h2, h3, h4, C01L.inner]
+    · simp [hk1, hk2, h1, h2, h3, h4]
 
 /-- **C01.token_count**: the token count `stats` reports depends only on kinds and data of significant tokens that
 renaming does not touch, so it is unchanged whenever the tokens read back as in `minify_relex`. -/
 theorem token_count (f : Bytes → Bytes) (a b : List Tok) (hlen : (sigToks a).length = (sigToks b).length)
     (h : ∀ i, i < (sigToks b).length → ∃ x y, (sigToks a)[i]? = some x ∧ (sigToks b)[i]? = some y ∧ sameTok x (renameTok f y) = true) :
     tokenCount a = tokenCount b := by
-  sorry
+  apply C01L.token_count a b hlen
+  intro i hi
+  obtain ⟨x, y, hx, hy, hs⟩ := h i hi
+  refine ⟨x, y, hx, hy, ?_⟩
+  simp only [sameTok, Bool.and_eq_true, beq_iff_eq] at hs
+  obtain ⟨⟨⟨hk, hd⟩, _⟩, _⟩ := hs
+  unfold renameTok at hk hd
+  constructor
+  · rw [hk]; split
+    · rfl
+    · split <;> rfl
+  · intro h1 h2; rw [hd, if_neg h1, if_neg h2]
 
 example : FusablePair [126] [61] = true := by decide +kernel       -- `~` `=` would fuse (never adjacent in a program)
 example : FusablePair [45] [45] = false := by decide +kernel        -- `-` `-` is separated by luamin
